@@ -70,6 +70,7 @@ void h_heap_get_move(void)
 struct chain_cell { heap_node_t n; void *pad; } g_chain[GET_DEPTH];   /* 32-byte cells: index = offset >> 5 */
 unsigned long g_get_n;      /* the node number asked for */
 int g_get_k;                /* position of its leading bit */
+unsigned long w_get_n;      /* replay witness */
 _Static_assert(sizeof(struct chain_cell) == 32 && offsetof(struct chain_cell, n) == 0, "loop invariant of heap_get divides the pointer offset by 32");
 void h_heap_get(void)
 {
@@ -82,6 +83,7 @@ void h_heap_get(void)
 			k = j;
 	g_get_n = n;
 	g_get_k = k;
+	w_get_n = n;
 	size_t m = n << (63 - k);         /* n with its leading bit moved to bit 63 */
 	for (int j = 0; j < GET_DEPTH; j++) {
 		g_chain[j].n.parent = NULL;
@@ -133,6 +135,7 @@ tn_cmp(heap_node_t *a, heap_node_t *b)
 static struct tn *g_node[MAXN + 1];   /* [1..S]: node placed at position i; [S+1]: the node to insert */
 static int64_t g_key[MAXN + 1];       /* its key when the tree was built */
 long w_key1, w_key2, w_key3, w_key4, w_key5, w_key6, w_key7, w_keynew;   /* replay witnesses */
+long w_key8, w_key9, w_key10, w_key11, w_key12, w_key13, w_key14, w_key15; int w_s;
 
 /* THE complete tree of S nodes; keys arbitrary subject to heap order, except
  * that position 1 is exempt when `root_free` (precondition of heap_max_heapify) */
@@ -158,6 +161,11 @@ build(heap_head_t *h, int root_free)
 	w_key3 = HEAP_S >= 3 ? g_key[3] : 0; w_key4 = HEAP_S >= 4 ? g_key[4] : 0;
 	w_key5 = HEAP_S >= 5 ? g_key[5] : 0; w_key6 = HEAP_S >= 6 ? g_key[6] : 0;
 	w_key7 = HEAP_S >= 7 ? g_key[7] : 0; w_keynew = g_key[MAXN];
+	w_key8 = HEAP_S >= 8 ? g_key[8] : 0; w_key9 = HEAP_S >= 9 ? g_key[9] : 0;
+	w_key10 = HEAP_S >= 10 ? g_key[10] : 0; w_key11 = HEAP_S >= 11 ? g_key[11] : 0;
+	w_key12 = HEAP_S >= 12 ? g_key[12] : 0; w_key13 = HEAP_S >= 13 ? g_key[13] : 0;
+	w_key14 = HEAP_S >= 14 ? g_key[14] : 0; w_key15 = HEAP_S >= 15 ? g_key[15] : 0;
+	w_s = HEAP_S;
 }
 
 /* The heap `h` is the complete tree of n nodes, in heap order, with mutually
